@@ -210,6 +210,9 @@ func (fr *frame) load(p pointer) value {
 	if p.sym != nil {
 		return fr.loadSym(p)
 	}
+	if p.obj.global != nil {
+		fr.m.noteGlobalAccess(p.obj.global, false)
+	}
 	return copyVal(*cellOf(p.obj, p.path))
 }
 
